@@ -98,7 +98,7 @@ def lib_leaves(iterable):
             lits.append(("+" if cond.is_positive else "-", (cond.name,) + tuple(cond.grounded_objects)))
             typed.append(str(cond))
         elif isinstance(cond, NumericalExpressionTree):
-            nums.append(norm_expr(sexpr.read(cond.to_pddl())))
+            nums.append(norm_expr(sexpr.read(cond.to_pddl(9))))
         else:
             raise TypeError(f"unexpected grounded item {type(cond).__name__}")
     return lits, nums, typed
@@ -171,7 +171,7 @@ def check_case(case):
             for ge in op.grounded_effects:
                 adds = ssort((g.name,) + tuple(g.grounded_objects) for g in ge.grounded_discrete_effects if g.is_positive)
                 dels = ssort((g.name,) + tuple(g.grounded_objects) for g in ge.grounded_discrete_effects if not g.is_positive)
-                nums = ssort(norm_expr(sexpr.read(x.to_pddl())) for x in ge.grounded_numeric_effects)
+                nums = ssort(norm_expr(sexpr.read(x.to_pddl(9))) for x in ge.grounded_numeric_effects)
                 typed = [str(g) for g in ge.grounded_discrete_effects]
                 if ge.grounded_antecedents is None:
                     cl = cn = None
@@ -286,7 +286,7 @@ def check_case(case):
 
 
 def gen(ch, tier):
-    ft = G.feats(max_actions=2, p_when=0.6, p_long_number=0.1, long_decimals=4)
+    ft = G.feats(max_actions=2, p_when=0.6, p_long_number=0.12, long_decimals=7)
     return S.gen_sem_case(ch, tier, ft, n_probes=5)
 
 
